@@ -802,7 +802,7 @@ def all_histories(ctx):
     hs += grid()
     hs += batch_family()
     rng = ctx.subrng('histories')
-    n = 800 if ctx.tier == 'thorough' else 150
+    n = 800 if ctx.tier == 'thorough' else 130
     for i in range(n):
         hs.append(('random', random_history(rng, rng.randint(5, 40))))
     return hs
